@@ -47,11 +47,11 @@ Theorem C15_in_facts_meaning : forall f m, in_facts f m <->
      forall id', on_lattice f id' -> i_nextAccept m <= id' <= id -> lookup id' (i_streams m') <> None) /\
   (forall op m' r fr, iop_ok f op -> istep m op = (m', r, fr) -> fr <> [] ->
      zlen (i_streams m') = zlen (i_streams m) - 1 /\
-     (exists id, (op = IDelete id \/ op = IAccept /\ r = RId id) /\ id < i_nextAccept m' /\
+     (exists id, (op = IDelete id \/ (exists c, op = IAccept c) /\ r = RId id) /\ id < i_nextAccept m' /\
                  lookup id (i_streams m) <> None /\ lookup id (i_streams m') = None) /\
      exists n, fr = [FMax (i_uni m) n] /\ in_adv m < n /\ n = in_adv m' /\ n <= SM_MaxStreamCount) /\
   (forall op m' r fr, iop_ok f op -> istep m op = (m', r, fr) -> in_adv m <= in_adv m') /\
-  (i_closed m = None -> i_nextAccept m < i_nextOpen m -> snd (fst (in_accept m)) = RId (i_nextAccept m)).
+  (i_closed m = None -> i_nextAccept m < i_nextOpen m -> forall c, snd (fst (in_accept m c)) = RId (i_nextAccept m)).
 Proof. exact (fun f m => iff_refl _). Qed.
 Print Assumptions C15_in_facts_meaning.
 
@@ -140,7 +140,12 @@ Theorem C15_outgoing_streams_map : forall client mb mu ops s outs uni,
 Proof. exact sm_outgoing_discipline. Qed.
 Print Assumptions C15_outgoing_streams_map.
 
-(** (c) AcceptStream returns first, first+4, ... : every stream once, in ID order. *)
+(** (c) AcceptStream returns first, first+4, ... : every stream once, in ID order.
+    The histories quantified over contain [IAccept c] steps of arbitrarily many callers [c]
+    (first calls, wake-ups of parked callers, spurious wake-ups) and [IAcceptCancel c], in any
+    interleaving with the peer's frames and stream completions: the statement covers any number
+    of concurrent AcceptStream callers.  It rests on lookup-and-advance being ONE step of the
+    model, i.e. one critical section of the code. *)
 Theorem C15_accept_once_in_order : forall uni client N ops m outs, 0 <= N ->
   Forall (iop_ok (first_incoming uni client)) ops ->
   irun (init_in uni client N) ops = (m, outs) ->
@@ -148,6 +153,17 @@ Theorem C15_accept_once_in_order : forall uni client N ops m outs, 0 <= N ->
   i_nextAccept m = first_incoming uni client + 4 * zlen (accepted ops outs).
 Proof. exact in_accept_order. Qed.
 Print Assumptions C15_accept_once_in_order.
+
+(** (c) the same with the callers made visible: [accepted_by] lists (caller, stream) in the order
+    of the critical sections; whatever the callers, no stream goes to two of them, none is skipped. *)
+Theorem C15_accept_concurrent_callers : forall uni client N ops m outs, 0 <= N ->
+  Forall (iop_ok (first_incoming uni client)) ops ->
+  irun (init_in uni client N) ops = (m, outs) ->
+  map snd (accepted_by ops outs) =
+    ids_from (first_incoming uni client) (length (accepted_by ops outs)) /\
+  NoDup (map snd (accepted_by ops outs)).
+Proof. exact in_accept_concurrent. Qed.
+Print Assumptions C15_accept_concurrent_callers.
 
 Theorem C15_accept_no_duplicates : forall n from, NoDup (ids_from from n).
 Proof. exact ids_from_NoDup. Qed.
@@ -180,7 +196,7 @@ Print Assumptions C15_deleted_stream_ignored.
     accepted stream, and serves two blocked openers in order. *)
 Example C15_example_incoming :
   snd (irun (init_in false false 1)
-            [IGetOrOpen 0; IGetOrOpen 4; IAccept; IDelete 0; IGetOrOpen 4]) =
+            [IGetOrOpen 0; IGetOrOpen 4; IAccept 1; IDelete 0; IGetOrOpen 4]) =
   [(RId 0, []); (RErr ErrLimit, []); (RId 0, []); (RUnit, [FMax false 2]); (RId 4, [])].
 Proof. vm_compute. reflexivity. Qed.
 Print Assumptions C15_example_incoming.
@@ -192,3 +208,13 @@ Example C15_example_outgoing :
    (RErr ErrCtx, []); (RUnit, []); (RId 6, [])].
 Proof. vm_compute. reflexivity. Qed.
 Print Assumptions C15_example_outgoing.
+
+(** three callers parked at once, two streams opened by one frame, wake-ups in any order *)
+Example C15_example_concurrent_accept :
+  let r := irun (init_in true false 4)
+             [IAccept 1; IAccept 2; IAccept 3; IGetOrOpen 6; IAccept 3; IAccept 1; IAccept 2; IAcceptCancel 2] in
+  snd r = [(RParked, []); (RParked, []); (RParked, []); (RId 6, []); (RId 2, []); (RId 6, []);
+           (RParked, []); (RErr ErrCtx, [])] /\
+  i_parked (fst r) = [].
+Proof. vm_compute. split; reflexivity. Qed.
+Print Assumptions C15_example_concurrent_accept.
